@@ -31,7 +31,16 @@ const Rule = "cases = (implementation, capacity 0-12 (thorough: up to 40), compa
 	"loses its child of largest degree by DeleteIndex and what was cut off is deleted, until one tree of degree k holds F(k+2) entries - " +
 	"consolidate's table of floor(log_phi n)+1 slots then has none to spare (tag fib-degree-slack=0); then Insert+Delete at that size, a key " +
 	"decrease below a chain of marked ancestors (cascading cut), and a drain. " +
-	"non-trivial = the history held >= 3 entries at once and, while holding >= 3, executed a successful ChangeKey or " +
+	"Second round: EVERY capacity 0..200 per implementation, filled completely (index order and key pattern rotate), the ends of the index range, ChangeKey both ways, " +
+	"DeleteIndex of first / middle / last with re-Insert, drained; type instantiation (header kv=str|struct|ptr|slice|any|slicestruct): the same streams on heaps whose K and V are strings, " +
+	"structs, pointers, []int / []byte (not comparable), any with mixed dynamic types, a struct containing a slice - every key stands for an integer and every value for a letter and prints as it, so the " +
+	"lines equal the generic Model's; no dumps there (the dump hook is (int,string)-only). " +
+	"Huge families (run.Huge(): thorough, witness search, or budget enlarged because a modelled function's digest changed; header huge=1, a `bulk n a c` line inserts the permutation key (a*i+c) mod n, oracle-only " +
+	"with an oracle made for the size: a forward-moving pointer over the bulk keys plus a small map of the entries inserted / re-keyed individually): capacity 131071 / 196608 / 262143 / 262144 / 262145 filled " +
+	"completely per implementation (ascending / stride permutation / descending keys, min and max), indexed Fibonacci heaps of 4 871 000 and 5*10^6 entries (floor(log_phi n)+1 passes 32 at 4 870 847), " +
+	"indexed binomial 4 871 000, indexed binary 5*10^6 - each with Delete, Peek, DeleteIndex of the runner-up and of early indices, a key change away from the front, three new extremal entries inserted worst first, " +
+	"and 340 checked Deletes; the 2^18-1 cases are in the corpus and run on every check. " +
+	"non-trivial = the history held >= 3 entries at once (typed / huge cases: that alone) and, while holding >= 3, executed a successful ChangeKey or " +
 	"DeleteIndex, followed later by a successful Delete or Peek, and for ifibonacci additionally a ChangeKey that " +
 	"cut a node out of its tree (root count rose; tag fib-cascading-cut = it rose by >= 2, i.e. a marked parent " +
 	"was cut as well); distinct = distinct (header, op list); " +
@@ -156,6 +165,9 @@ func Exec(c hx.Case) (res hx.Result) {
 	comp := hx.HeaderGet(c.Header, "comp")
 	if hx.HeaderGet(c.Header, "huge") != "" {
 		return execHuge(c)
+	}
+	if hx.HeaderGet(c.Header, "kv") != "" {
+		return execTypedCase(c)
 	}
 	res = hx.Result{BadOp: -1}
 	bad := func(i int, sig string, format string, a ...any) {
@@ -945,6 +957,7 @@ func Main(run *hx.Run) {
 	}
 
 	hardFamilies(run)
+	secondRound(run)
 	hugeFamilies(run)
 
 	if run.Thorough() {
